@@ -775,6 +775,7 @@ func c05Lexer(c *Ctx) {
 		ps, _ := parseScope(t)
 		sharedWriteObligations(c, "PARSE-STATE", "parse", ps, false)
 		r.Floor("PARSE-STATE", 100)
+		posCacheReinit(c, "PARSE-STATE")
 	}
 	r.Ob("LEX-COVER", "Lexer.emit delivers exactly input[start:pos]", t.Pos(emit.Pos()), okTxt, "consecutive items tile the input")
 }
